@@ -20,6 +20,9 @@ CHECKS["C03"] = dict(cat="proof", design="§3 C03",
 CHECKS["C05"] = dict(cat="proof", design="§3 C05",
     text="so(3)/se(3)/se_2(3) Jacobians executed symbolically: J J^-1 = I (left and right), J_l = Ad_exp(x) J_r = J_r(-x), and column-by-column J_l e_i = vee(dM(exp x)/dx_i M^-1), J_r e_i = vee(M^-1 dM/dx_i) with the derivative taken by CasADi's AD of the real exp (series stubs differentiated by the chain rule) for theta in (0,2pi); theta=0 by exact evaluation; quaternion (left/right) and MRP kinematic Jacobians satisfy dM/dparam (J w) = M w^ / w^ M and q.(J w)=0 for all parameters.",
     note="trusted: as C02 plus CasADi AD and the calculus of the series oracles (dual numbers). Real arithmetic.")
+CHECKS["C07"] = dict(cat="proof", design="§3 C07",
+    text="All 12 ordered conversions, the from_Matrix entry points and shadow_if_necessary executed symbolically. Direct conversions and the two leaf extractors (4-branch Shepperd on every rotation matrix via both S^3 charts; Euler extraction on canonical angles) are proved per branch cell: same rotation matrix, unit norm / |r|<=1 / orthonormal + det 1 / pitch range, and every denominator or sqrt argument on the selected branch is defined; composite conversions are proved to hand M(X) to the leaf and to return the leaf's output (or from_Quat of it).",
+    note="trusted: as C01. Real arithmetic. Euler: exact claim outside the +-(1e-3+1e-9) pitch band only; the 'within band tolerance' clause is not decided. Composite conversions rest on the leaf lemmas (modular).")
 CHECKS["C04"] = dict(cat="proof", design="§3 C04",
     text="Ad/ad/bracket of every group/algebra executed symbolically; (Ad_X y)^ = M(X) y^ M(X^-1), Ad homomorphism and inverse, ad = bracket = matrix commutator, antisymmetry, Jacobi, block-diagonal direct-sum ad, and Ad_exp(x) = expm(ad_x) in closed form (Rodrigues / Barfoot quartic) are proved per entry; wrong shapes and crashes of offered operations are violations.",
     note="trusted: as C01 plus the closed forms of expm(ad) and the theorem Ad_{exp A} = expm(ad_A) (used for SE_2(3)/Euler where exp ends in from_Matrix). Operations raising NotImplementedError are out of scope as the property states.")
